@@ -349,3 +349,62 @@ def k_vt(p):
 
 
 KINDS.update({"vt": k_vt})
+
+
+def filter_ref(cfg, s, only_last):
+    """independent reading of the documented LocalBioFilter predicate."""
+    k, runs, gc, motifs = cfg["k"], cfg.get("runs"), cfg.get("gc"), cfg.get("motifs")
+    obs = s[-k:] if only_last else s
+    if any(c not in NUC for c in obs):
+        return False
+    if runs is not None:
+        run = 0
+        for i, c in enumerate(obs):
+            run = run + 1 if i and obs[i - 1] == c else 1
+            if run > runs:
+                return False
+    if motifs is not None:
+        comp = {"A": "T", "C": "G", "G": "C", "T": "A"}
+        for mo in motifs:
+            rc = "".join(comp.get(c, c) for c in reversed(mo))
+            if mo in obs or rc in obs:
+                return False
+    if gc is not None:
+        lo, hi = gc[0] * k, gc[1] * k
+        if len(obs) >= k:
+            for i in range(len(obs) - k + 1):
+                w = obs[i:i + k]
+                g = sum(1 for c in w if c in "CG")
+                if g > hi or g < lo:
+                    return False
+        else:
+            g = sum(1 for c in obs if c in "CG")
+            a = sum(1 for c in obs if c in "AT")
+            if g > hi or a > (1 - gc[0]) * k:
+                return False
+    return True
+
+
+def k_filter(p):
+    import dsw
+    c = p["config"]
+    f, ex = call(dsw.LocalBioFilter, observed_length=c["k"], max_homopolymer_runs=c.get("runs"), gc_range=c.get("gc"), undesired_motifs=c.get("motifs"))
+    if p.get("ctor_only"):
+        decidable = (c.get("runs") is None or c["runs"] < c["k"]) and all(len(m) <= c["k"] for m in (c.get("motifs") or []))
+        if ex is None and not decidable:
+            return True, "constructor accepted a configuration that is not window-decidable: %s" % c
+        return False, "constructor verdict ok (%s)" % ex
+    if ex is not None:
+        return False, "constructor rejected the configuration: outside the property"
+    s = p["dna"]
+    for only_last in (False, True):
+        r, ex = call(f.valid, s, only_last)
+        exp = filter_ref(c, s, only_last)
+        if ex is not None:
+            return True, "valid(%r, only_last=%s) raised %s" % (s, only_last, ex)
+        if bool(r) != exp:
+            return True, "valid(%r, only_last=%s) = %s, documented predicate gives %s (config %s)" % (s, only_last, r, exp, c)
+    return False, "matches"
+
+
+KINDS.update({"filter": k_filter})
